@@ -32,7 +32,7 @@ package ct
 //@   requires len(ds.Signature) + 4 <= 1<<48
 //@   requires here != nil ==> sep(here, ds.Signature)
 //@   ensures  [siglen] result1 == nil ==> len(ds.Signature) <= 0xffff
-//@   ensures  here != nil && len(here) < dsLen(ds) ==> result1 == ErrNotEnoughBuffer
+//@   ensures  here != nil && len(here) < dsLen(ds) && len(ds.Signature) <= 0xffff ==> result1 == ErrNotEnoughBuffer
 //@   ensures  (here == nil || len(here) >= dsLen(ds)) && len(ds.Signature) <= 0xffff ==> result1 == nil
 //@   ensures  result1 != nil ==> result0 == nil
 //@   ensures  result1 == nil ==> len(result0) == dsLen(ds) && (here == nil ==> fresh(result0)) && (here != nil ==> same(result0, here[:dsLen(ds)]))
